@@ -104,8 +104,32 @@ def parseSource (fs : FS) (src : String) : Except Err (List Ast) :=
     | .ok (asts, _) => .ok asts
     | .error e => .error e
 
+def tokTyOfName (n : String) : Option TokTy :=
+  [TokTy.EOF, .COMMENT, .LABEL, .IDENTIFIER, .QUOTED_STRING, .OPERATOR, .LPAREN, .RPAREN, .SHARP, .RBRAKET, .LBRAKET,
+   .RBRACE, .LBRACE, .ADDRESSING_MODE_INDEX, .OPCODE_SIZE, .OPCODE_NAKED, .OPCODE, .COMMA, .KEYWORD, .NUMBER, .STAR_EQ,
+   .AT_EQ, .EQUAL, .ASSIGN, .DOUBLE_LBRACE, .DOUBLE_RBRACE, .MULTILINE_COMMENT_START, .MULTILINE_COMMENT_END, .BOOLEAN,
+   .TYPE].find? (fun t => t.name == n)
+
+/-- `TY:hexvalue` -/
+def parseTokArg (w : String) : Option Tok :=
+  match w.splitOn ":" with
+  | [ty, v] =>
+    match tokTyOfName ty, textOfHex v with
+    | some t, some s => some { ty := t, val := s, line := 0, col := 0, file := 0, hasPos := true }
+    | _, _ => none
+  | _ => none
+
 def handleParse (ws : List String) : Option String :=
   match ws with
+  | "ptoks" :: toks =>
+    match toks.mapM parseTokArg with
+    | some ts =>
+      let files : Array FileRec := #[⟨"t", #[""]⟩]
+      let arr := ts.toArray
+      some (match (parseProgram genParseCfg (4 * arr.size + 64)).run { toks := arr, fs := ⟨[], []⟩ } with
+        | .ok (asts, _) => "ok " ++ serList files asts
+        | .error e => showErr files e)
+    | none => some "bad-op"
   | ["parse", text, bin, src] =>
     match parseFS text bin, textOfHex src with
     | some fs, some s =>
